@@ -16,7 +16,7 @@ CONSTANTS
   AllowContinueAfterVolatile = TRUE
   RelevantSignersOnly = FALSE
 SPECIFICATION TraceSpec
-INVARIANTS TypeOK TrustOnlyByRFC RevokedNeverAgain RevokedNeverAtFetch
+INVARIANTS TypeOK TrustOnlyByRFC RevokedNeverAgain RevokedNeverAtFetch UnreadableAborts
 PROPERTIES UnauthenticatedChangesNothing RevokedOnlyRevokes FailClosed MissingKeepsTrust ReappearRestores
 POSTCONDITION TraceAccepted
 CHECK_DEADLOCK FALSE
